@@ -209,6 +209,91 @@ def gramSmall (bs : List (List Vec)) (n : Nat) (a b : Nat) : Rat :=
 def liftDirection (bs : List (List Vec)) (u : Nat → Rat) (j : Nat) : Rat :=
   rsum (count bs) fun a => centred bs a j * u a
 
+/-! ## Objects that are used more than once
+
+A `PCA` object keeps its decomposition in members, `meanvar` writes into output arguments that the
+caller may have used before, models are overwritten by `setStructure`.  The point that matters is
+remora's `matrix::resize(r, c)`: it is `std::vector::resize` on the row-major storage, so the
+elements keep their LINEAR position and only new elements are 0 — old numbers are not cleared.
+Code that accumulates (`noalias(M) += …`) into a resized member has to `clear()` it first. -/
+
+/-- a dense matrix object: shape and content (row-major storage of `rows * cols` numbers) -/
+structure Mat where
+  rows : Nat
+  cols : Nat
+  get : Nat → Nat → Rat
+
+/-- a default-constructed (empty) matrix -/
+def Mat.empty : Mat := { rows := 0, cols := 0, get := fun _ _ => 0 }
+
+/-- `matrix::resize(r, c)`: the linear storage is cut or extended with zeros; what was stored at
+linear position `k` is still there -/
+def Mat.resize (M : Mat) (r c : Nat) : Mat :=
+  { rows := r, cols := c,
+    get := fun i j => if i * c + j < M.rows * M.cols then M.get ((i * c + j) / M.cols) ((i * c + j) % M.cols) else 0 }
+
+/-- `matrix::clear()` -/
+def Mat.clear (M : Mat) : Mat := { M with get := fun _ _ => 0 }
+
+/-- `noalias(M) += P` -/
+def Mat.add (M : Mat) (P : Nat → Nat → Rat) : Mat := { M with get := fun i j => M.get i j + P i j }
+
+/-- `M /= c` -/
+def Mat.divBy (M : Mat) (c : Rat) : Mat := { M with get := fun i j => M.get i j / c }
+
+/-- `meanvar(data, mean, covariance)` writing into a matrix object the caller passes in (possibly
+the result of an earlier call): `covariance.resize(d,d); covariance.clear(); for batch: += …; /= n` -/
+def meanvarInto (C : Mat) (bs : List (List Vec)) (d : Nat) : Mat :=
+  (((C.resize d d).clear).add fun i j => bsum bs fun x => (x.at i - mean bs i) * (x.at j - mean bs j)).divBy (count bs : Nat)
+
+/-- the state of a `PCA` object between calls -/
+structure PcaObject where
+  whitening : Bool
+  n : Nat                    -- `m_n`
+  l : Nat                    -- `m_l`
+  V : Mat                    -- `m_eigenvectors`
+  ev : Nat → Rat             -- `m_eigenvalues`
+  mu : Nat → Rat             -- `m_mean`
+
+/-- a freshly constructed `PCA(whitening)` -/
+def PcaObject.fresh (whitening : Bool) : PcaObject :=
+  { whitening, n := 0, l := 0, V := Mat.empty, ev := fun _ => 0, mu := fun _ => 0 }
+
+/-- the symmetric eigen-solver (a parameter): eigenvalues in descending order, eigenvectors as columns -/
+abbrev EigenSolver := Nat → (Nat → Nat → Rat) → (Nat → Rat) × (Nat → Nat → Rat)
+
+/-- standard branch of `PCA::setData`: `m_eigenvectors = eigen.Q()` (assignment) -/
+def PcaObject.setDataStandard (eig : EigenSolver) (o : PcaObject) (bs : List (List Vec)) (n : Nat) : PcaObject :=
+  let e := eig n (covariance bs)
+  { o with n := n, l := count bs, V := { rows := n, cols := n, get := e.snd }, ev := e.fst, mu := mean bs }
+
+/-- small-sample branch of `PCA::setData` on the object `o`:
+`m_eigenvectors.resize(n,l); m_eigenvectors.clear(); for batch: m_eigenvectors += X_bᵀ·U_b;` then every
+column with a non-negligible eigenvalue is divided by its norm (`norm`, a parameter: `sqrt` inside) and
+the others are set to zero.  `clr = false` is the source without the `clear()` call. -/
+def PcaObject.setDataSmall (eig : EigenSolver) (norm : (Nat → Rat) → Rat) (clr : Bool) (o : PcaObject)
+    (bs : List (List Vec)) (n : Nat) : PcaObject :=
+  let e := eig (count bs) (gramSmall bs n)
+  let V0 := o.V.resize n (count bs)
+  let V1 := if clr then V0.clear else V0
+  let D := e.fst
+  let U := e.snd
+  let V2 := V1.add fun j i => liftDirection bs (fun a => U a i) j
+  let V3 : Mat := { V2 with get := fun j i =>
+    if (D i > (1 / 1000000000000) * D 0) then V2.get j i / norm (fun k => V2.get k i) else 0 }
+  { o with n := n, l := count bs, V := V3, ev := D, mu := mean bs }
+
+/-- `PCA::setData`: `alg` 1 = STANDARD, 2 = SMALL_SAMPLE, otherwise AUTO (small-sample iff more features than points) -/
+def PcaObject.setData (eig : EigenSolver) (norm : (Nat → Rat) → Rat) (alg : Nat) (o : PcaObject)
+    (bs : List (List Vec)) (n : Nat) : PcaObject :=
+  if alg = 2 ∨ (alg ≠ 1 ∧ n > count bs) then o.setDataSmall eig norm true bs n else o.setDataStandard eig bs n
+
+/-- `PCA::encoder(model, m)` without whitening, from the state of the object -/
+def PcaObject.encoder (o : PcaObject) (m : Nat) : LinearModel := pcaEncoder o.V.get o.mu o.n m
+
+/-- `PCA::decoder(model, m)` without whitening -/
+def PcaObject.decoder (o : PcaObject) : LinearModel := pcaDecoder o.V.get o.mu o.n
+
 /-! ## LDA (`src/Algorithms/LDA.cpp`) -/
 
 abbrev CData := List (List (Vec × Nat))            -- (input, class)
